@@ -30,6 +30,10 @@ CORE_EXPRS = [
     "0", "1", "2", "-1", "0x1", "01", "0b1", "0x2", "-0x1", "3", "0x3", "255", "0xff", "0377",
     "9223372036854775807", "9223372036854775808", "0xffffffffffffffff", "-9223372036854775808", "-0x8000000000000000",
     "1", "0x10", "16",
+    # non-negative values held in the *signed* internal representation (literals are unsigned or negative; these
+    # come out of arithmetic), next to unsigned ones >= 2^63: the comparison must go by value, not by representation
+    "5 5 sub", "7 -7 add", "10 -3 add", "-5 -1 mul", "-9223372036854775807 -1 mul", "-6 -2 div", "0xff -1 add hex", "-1 1 add",
+    "0x7fffffffffffffff 1 add", "0xfffffffffffffffe", "9223372036854775807 -1 mul -1 mul",
     "true", "false", "T_CONST", "T_STR", "T_SEQ", "T_DIE", "T_ATTR",
     "\"ab\" elem pos", "\"abc\" relem pos", "0 3 aset elem", "0 3 aset low", "1 2 aset high",
     "DW_TAG_member", "DW_AT_bit_size", "DW_FORM_data4", "DW_OP_addr", "DW_ATE_address", "DW_LANG_C89", "DW_TAG_array_type",
